@@ -8,6 +8,9 @@ from vf.ref.ecref import SECP256K1 as S
 from vf.runner import Acc, filler
 
 PROPERTY = "C08"
+CONCUR_FILES = ('bits/script/utils.py', 'bits/utils.py', 'bits/base58.py', 'bits/bips/bip173.py')
+# (thread a, thread b), warm-up: indices into seq_ops() - the ordinary single-case checks run concurrently (vf/concur.py)
+CONCUR_SCEN = [((0, 2), ()), ((5, 6), (0,)), ((3, 9), (2,)), ((5, 7), (5,))]
 LEVEL = "exploration"
 ENGINES = ["E1-scope-enumerator", "E2-small-curve"]
 RULE = ("positive: FULL product networks x {p2pkh,p2sh} x 8 payload patterns; networks x v0 x {20,32}; networks x v1..16 x EVERY "
@@ -20,6 +23,7 @@ ASSUMPTIONS = ["templates: P2PKH 76 a9 14 h 88 ac; P2SH a9 14 h 87; witness OP_n
                "a checksum-valid Base58Check string with a known version byte and a payload that is not 20 bytes may be mapped (template "
                "over that payload) or refused", "references: base58_ref, bech32_ref, ecref"]
 OBLIGATIONS = {
+    "concurrent_calls": "interleavings of two concurrent calls (single-case checks in two threads, cold and after warm-up calls)",
     "history_sequences": "operation sequences (non-initial process states) explored",
     "witness_v1plus_len_other": "a valid v1+ address with a program length other than 20/32", "unknown_b58_version": "a checksum-valid "
     "Base58Check string with an unknown version byte", "corrupted_still_valid": "a corrupted address that is itself another valid address",
@@ -126,6 +130,9 @@ CASES = {"map": chk_map, "addr": chk_addr}
 
 
 def run_case(kind, case):
+    if kind == "concurcase":
+        from vf import concur
+        return concur.replay_cases(run_case, PROPERTY, case, CONCUR_FILES)
     if kind == "seq":
         from vf import seqexplore
         return seqexplore.replay(run_case, case)
@@ -163,10 +170,17 @@ def jobs(tier, seed):
         js.append({"name": f"small/p{t[0]}/points", "part": "small", "curve": list(t), "weight": 3})
     from vf.runner import seq_jobs
     js += seq_jobs(3, weight=4)
+    from vf.runner import concur_jobs
+    js += concur_jobs(len(CONCUR_SCEN))
     return js
 
 
 def run_job(job):
+    if job["part"] == "concurcase":
+        from vf.runner import run_concur_job
+        ops = seq_ops(dict(job, shard=[0, 1]))
+        scens = [{"threads": [ops[i] for i in th], "warm": [ops[i] for i in wm]} for th, wm in CONCUR_SCEN]
+        return run_concur_job(job, scens, run_case, PROPERTY, CONCUR_FILES)
     if job["part"] == "seq":
         from vf.runner import run_seq_job
         return run_seq_job(job, seq_ops(job), run_case)
